@@ -148,6 +148,22 @@ def corruptions(jp):
     out.append((good_lex, bad_stack, "lexer: function call stack emptied in one step"))
     out.append((good_lex, drop_step, "lexer: one hook event removed"))
     out.append((good_lex, bad_token, "lexer: a token type changed"))
+    # the parser model: outcome, error class, one node of the query built
+    good_p = extra.pcompile_record(jp, "$.a[?@.b == 'x' && count(@.*) > 1 || @[1:2]]")
+    good_pe = extra.pcompile_record(jp, "$[?count(@.a, 1) == 1]")
+
+    def p_op(r):
+        r["ast"][1]["sels"][0]["e"]["t"] = "and"
+
+    def p_kind(r):
+        r["kind"] = "syntax"
+
+    def p_out(r):
+        r["out"], r["kind"], r["ast"] = "raise", "syntax", []
+
+    out.append((good_p, p_op, "parser: the top operator of the filter changed"))
+    out.append((good_pe, p_kind, "parser: a typing error reported as a syntax error"))
+    out.append((good_p, p_out, "parser: an accepted query reported as rejected"))
     return out
 
 
